@@ -1,6 +1,6 @@
 CONSTANTS
   Threads = {t1, t2}
-  MaxCalls = 3
+  MaxCalls = 2
   MaxTimer = 1
   QCap = 2
   CallKinds = {"AsyncA", "SyncB", "FlushSync"}
@@ -25,7 +25,7 @@ CONSTANTS
   Weak_DeadQueueBlocks = FALSE
 INIT Init
 NEXT Next
-INVARIANTS PerConnectionFIFO FlushMeaning CallbackOrder ErrorIsTerminal HonestNoError HonestProgress
+INVARIANTS FIFO_App RespOwn RespType RespOrder FlushMeaning CbOnce CbInOrder CbNotLost CbOwn NoPanic DoneOnce NoStuckCaller FaultStops ErrSticky HonestNoError HonestProgress
 VIEW View
 SYMMETRY SymT
 CHECK_DEADLOCK FALSE
